@@ -270,6 +270,14 @@ impl<W: AliasableWeight> WeightedAliasIndex<W> {
     }
 }
 
+#[cfg(rand_distr_verif)]
+impl<W: AliasableWeight> WeightedAliasIndex<W> {
+    /// Verification hook: the alias table as `(aliases, no_alias_odds, weight_sum)`.
+    pub fn verif_table(&self) -> (&[u32], &[W], W) {
+        (&self.aliases, &self.no_alias_odds, self.weight_sum)
+    }
+}
+
 impl<W: AliasableWeight> Distribution<usize> for WeightedAliasIndex<W> {
     fn sample<R: Rng + ?Sized>(&self, rng: &mut R) -> usize {
         let candidate = rng.sample(self.uniform_index);
